@@ -60,6 +60,7 @@ def build_registry(mods):
     reg.models[common.forall_range] = _models.q_forall
     reg.models[common.exists_range] = _models.q_exists
     reg.models[common.is_opaque] = _models.m_is_opaque
+    reg.models[common.items_of] = _models.m_items_of
     reg.link()
     # loop specs keyed by (file, ast-qualname, ordinal)
     for (q, ordinal), ls in reg.loops.items():
@@ -76,6 +77,15 @@ def build_registry(mods):
 _REG = None
 _MODS = None
 _TIER = 'quick'
+_BASELINE = {}
+
+
+def load_baseline(prop):
+    path = os.path.join(VERIF, 'baseline', prop + '.json')
+    if os.path.exists(path):
+        with open(path) as f:
+            return json.load(f)
+    return {}
 
 
 def _task_function(qname):
@@ -123,8 +133,29 @@ def _summarize(c, rep):
                           'goal': str(goal)[:2000]}
                 break
             if v.status == 'unknown' and status != 'sat':
-                status = 'unknown'
-                detail = {'reason': v.reason, 'backend': v.backend, 'meta': _jsonable(meta)}
+                base = _BASELINE.get(name)
+                if base is not None and base.get('status') == 'unsat' and base.get('deps_sha') != rep.deps_sha:
+                    # discharged on the pinned tree, the code it was generated from has changed, and the
+                    # proof no longer goes through: retry with three times the budget before reporting
+                    v10 = smt.discharge(pc, goal, scale=3)
+                    solver_time += v10.time
+                    if v10.status == 'unsat':
+                        by_backend[v10.backend] = by_backend.get(v10.backend, 0) + 1
+                        continue
+                    if v10.status == 'sat':
+                        status = 'sat'
+                        detail = {'model': smt.model_to_dict(v10.model), 'meta': _jsonable(meta),
+                                  'backend': v10.backend, 'goal': str(goal)[:2000]}
+                        break
+                    status = 'regressed'
+                    detail = {'reason': 'discharged on the pinned tree (%s); after the change of the source it was '
+                                        'generated from, no back end proves it within 3x the budget: %s'
+                                        % (base.get('backend'), v10.reason),
+                              'backend': v10.backend, 'meta': _jsonable(meta), 'goal': str(goal)[:2000]}
+                    continue
+                if status != 'regressed':
+                    status = 'unknown'
+                    detail = {'reason': v.reason, 'backend': v.backend, 'meta': _jsonable(meta)}
         clauses[name] = {'status': status, 'instances': len(insts), 'detail': detail,
                          'kind': (insts[0][2] or {}).get('kind')}
     return {
@@ -136,6 +167,7 @@ def _summarize(c, rep):
         'source': rep.source, 'sha256': rep.sha, 'wall': rep.wall, 'solver_time': solver_time,
         'by_backend': by_backend, 'vcs': vcs, 'samples': samples,
         'unknown_feasibility': rep.unknown_feasibility, 'feasibility_queries': rep.feasibility_queries,
+        'deps_sha': rep.deps_sha,
     }
 
 
@@ -235,11 +267,15 @@ def main(argv=None):
     ap.add_argument('--only', default=None, help='substring filter on function names (development)')
     ap.add_argument('--verbose', '-v', action='store_true')
     ap.add_argument('--no-evidence', action='store_true')
+    ap.add_argument('--write-baseline', action='store_true',
+                    help='record the discharged obligations of the unchanged tree in baseline/<prop>.json')
     args = ap.parse_args(argv)
     _TIER = args.tier if args.tier in ('quick', 'thorough') else 'quick'
     seed = int(os.environ.get('VERIF_SEED', '0') or 0)
     t0 = time.time()
     prop = args.prop
+    global _BASELINE
+    _BASELINE = load_baseline(prop)
     try:
         _MODS = load_modules()
         _REG = build_registry(_MODS)
@@ -304,6 +340,7 @@ def report(prop, mine, results, missing, seed, wall, args):
     assumed_asserts = set()
     vcs = 0
     bounded_all = []
+    baseline_out = {}
     for r in results:
         if 'crash' in r:
             crashes.append((r.get('qname') or r.get('name'), r['crash']))
@@ -338,10 +375,13 @@ def report(prop, mine, results, missing, seed, wall, args):
                 crashes.append((rep['qname'], 'vacuous: zero obligations generated'))
             for name, cl in rep['clauses'].items():
                 obligations += 1
+                baseline_out[name] = {'status': cl['status'], 'deps_sha': rep.get('deps_sha'),
+                                      'backend': ','.join(sorted(rep['by_backend']))}
                 if cl['status'] == 'unsat':
                     discharged += 1
-                elif cl['status'] == 'sat':
-                    refuted.append({'obligation': name, 'function': rep['qname'], 'detail': cl['detail']})
+                elif cl['status'] in ('sat', 'regressed'):
+                    refuted.append({'obligation': name, 'function': rep['qname'], 'detail': cl['detail'],
+                                    'regressed': cl['status'] == 'regressed'})
                 else:
                     undecided.append((name, 'solver: %s' % (cl['detail'],)))
         else:
@@ -381,6 +421,17 @@ def report(prop, mine, results, missing, seed, wall, args):
         else:
             violations.append(rf)
 
+    if args.write_baseline and not args.only:
+        os.makedirs(os.path.join(VERIF, 'baseline'), exist_ok=True)
+        with open(os.path.join(VERIF, 'baseline', prop + '.json'), 'w') as f:
+            json.dump(baseline_out, f, indent=1, sort_keys=True)
+    # obligations of the pinned tree that were not generated at all on this run
+    for name, b in _BASELINE.items():
+        if b.get('status') == 'unsat' and name not in baseline_out and not args.only \
+                and not any(name == u[0] for u in undecided):
+            fn = name.split(' : ')[0]
+            if not any(fn == u[0] or fn in str(u[0]) for u in undecided) and not any(fn == c[0] for c in crashes):
+                undecided.append((name, 'obligation of the pinned tree was not generated on this run'))
     exit_code = 0
     for k, rf in known_seen:
         print('KNOWN-FINDING: property=%s %s' % (prop, k.get('what', rf['obligation'])))
@@ -414,6 +465,26 @@ def report(prop, mine, results, missing, seed, wall, args):
     assumptions.extend('assert isinstance(...) taken as assumption at %s' % a for a in sorted(assumed_asserts))
     assumptions.extend('executed natively on concrete arguments: %s' % a for a in sorted(native_calls))
     assumptions.append('integers are mathematical; no threads/signals/BaseException; termination only where a variant is given')
+    extra = {}
+    if _TIER == 'thorough' and not args.only:
+        # validation of the verifier itself (DESIGN 2.4): a failure here is a checker error
+        try:
+            from . import crosscheck, modelcheck
+            cc = crosscheck.run(prop, 25, seed)
+            extra['interpreter_crosscheck_against_cpython'] = {
+                'runs_compared': cc['compared'], 'failures': len(cc['failures']),
+                'functions_without_concrete_inputs': sorted(cc['skipped'])}
+            cases, mfail = modelcheck.run(3)
+            extra['string_model_crosscheck_against_cpython'] = {'cases': cases, 'failures': len(mfail)}
+            if cc['failures'] or mfail:
+                for f in (cc['failures'] + mfail)[:10]:
+                    print('CHECKER-ERROR: cross-check against CPython failed: %r' % (f,))
+                if exit_code == 0:
+                    exit_code = 3
+        except Exception:
+            print('CHECKER-ERROR: cross-check crashed\n' + traceback.format_exc())
+            if exit_code == 0:
+                exit_code = 3
     evidence = {
         'property_id': prop, 'tier': _TIER, 'seed': seed, 'level': 'proof',
         'coverage': {
@@ -429,6 +500,7 @@ def report(prop, mine, results, missing, seed, wall, args):
             'undecided': [list(u) for u in undecided],
             'samples': samples[:5] or [{'note': 'no SMT sample (all obligations by enumeration/scan)'}],
             'bounded_standins': bounded,
+            **extra,
         },
         'assumptions': assumptions,
         'wall_s': round(wall, 3),
